@@ -111,7 +111,18 @@ fn compare(p: &P, r: &SetSketchParams) -> RT {
 }
 
 fn round_trip(dir: &Path, p: &P) -> RT {
-    let params = SetSketchParams::new(p.b, p.m, p.a, p.q);
+    // every other tuple reaches its m through the public setter instead of the constructor
+    let via_setter = (p.m ^ p.q ^ p.a.to_bits()) & 1 == 1;
+    let params = if via_setter {
+        let mut x = SetSketchParams::new(p.b, p.m.wrapping_add(1), p.a, p.q);
+        x.set_m(p.m as usize);
+        x
+    } else {
+        SetSketchParams::new(p.b, p.m, p.a, p.q)
+    };
+    if params.get_m() != p.m || params.get_q() != p.q || params.get_a().to_bits() != p.a.to_bits() || params.get_b().to_bits() != p.b.to_bits() {
+        return RT::Bad(format!("getters before the dump report ({}, {}, {}, {}){}", params.get_b(), params.get_m(), params.get_a(), params.get_q(), if via_setter { " (m set through set_m)" } else { "" }));
+    }
     // every round trip starts from an empty directory (dumping over an existing file is its own case)
     let _ = std::fs::remove_file(dir.join("parameters.json"));
     let r = guarded_mut(|| {
